@@ -324,6 +324,17 @@ def concrete_suite(ctx):
                 ctx.check(ok, "prepared data holds, for each segment, the values of that segment's cell at every depth")
             else:
                 ctx.check(len(td['linear_index']) == 0, 'a path that misses the model gives an empty transect')
+    # a transect along a depth coordinate that is not the dataset's default one
+    wdata = numpy.arange(3 * 3 * 4, dtype=float).reshape(3, 3, 4) + 500
+    ds2 = ds1.assign(w=(('kw', 'y', 'x'), wdata)).assign_coords(
+        zw=(('kw',), numpy.array([0.0, 2.0, 4.0]), {'positive': 'down', 'long_name': 'depth of layer faces', 'units': 'm'}))
+    tr = T.Transect(ds2, shapely.LineString(lines1[1]), depth='zw')
+    segs = tr.segments
+    prepared = tr.prepare_data_array_for_transect(ds2['w'])
+    flat = ds2.ems.ravel(ds2['w']).values
+    ctx.check(prepared.dims[0] == 'kw' and prepared.shape == (3, len(segs))
+              and all(same(prepared.values[k, si], flat[k, int(s.linear_index)]) for si, s in enumerate(segs) for k in range(3)),
+              "prepared data holds, for each segment, the values of that segment's cell at every depth (transect built on a second depth coordinate)")
     for label in deferred[:1]:
         ctx.check(False, label)
 
